@@ -538,9 +538,15 @@ class CancelScope(BaseCancelScope):
                 if self._pending_uncancellations:
                     assert self._parent_scope is not None
                     assert self._parent_scope._pending_uncancellations is not None
-                    self._parent_scope._pending_uncancellations += (
-                        self._pending_uncancellations
-                    )
+                    # The count stands for cancel() calls made on our host task, so
+                    # it can only be settled by a scope hosted by the same task (the
+                    # parent of a child task's outermost scope belongs to another
+                    # task)
+                    if self._parent_scope._host_task is self._host_task:
+                        self._parent_scope._pending_uncancellations += (
+                            self._pending_uncancellations
+                        )
+
                     self._pending_uncancellations = 0
 
                 return False
